@@ -990,6 +990,20 @@ def r11(p, rep):
         raise AnalysisError(f"only {n} Inlined(...) templates recognised in the emitter")
 
 
+def r12(p, rep):
+    rep.rule("C04.R12", "code that takes a slice apart handles all three of start / stop / step (a step that is printed but not reported as an input is invisible to the liveness analysis)", "T-SIB over the fields of slice", floor=2)
+    n = 0
+    for f in p.funcs.values():
+        if not (f.module.name.startswith("einx._src.tracer.") and not f.module.name.endswith("visualize")) or not isinstance(f.node, (ast.FunctionDef, ast.AsyncFunctionDef)):
+            continue
+        for var, fields, first in common.slice_field_reads(f.node):
+            n += 1
+            ok = "step" in fields
+            rep.add("C04.R12", f"{f.qualname}:slice({var})", f"{f.module.rel}:{first.lineno}", ok, f"`{var}` is taken apart into start, stop and step" if ok else f"`{var}.start` and `{var}.stop` are used but `{var}.step` is not: for `x[::k]` the variable k is not an input of the expression (it can be overwritten by a re-used name before the statement runs) or is dropped from the rebuilt node")
+    if n == 0:
+        raise AnalysisError("unrecognised idiom: no function of the tracer takes a slice apart")
+
+
 def run(p, rep, tier):
     r1(p, rep)
     r2(p, rep)
@@ -1001,6 +1015,7 @@ def run(p, rep, tier):
     r9(p, rep)
     r10(p, rep)
     r11(p, rep)
+    r12(p, rep)
     rep.rule("C06.R1", "IR nodes compare every field (graph equality drives inline decisions and pattern matching)", "T-SIB (__init__ vs __eq__)", floor=30)
     c06.r1(p, rep)
     if tier == "thorough":
